@@ -82,12 +82,20 @@ Proof.
   rewrite assoc_set. reflexivity.
 Qed.
 
+Lemma assoc_out_val (o : out) (name : string) :
+  match assoc name (map (fun kv : string * Q => (fst kv, VNum (snd kv))) o) with
+  | Some (VNum q) => q
+  | _ => 0%Q
+  end = getd o name.
+Proof.
+  unfold getd. induction o as [| [k q] t IH]; simpl; [reflexivity |].
+  destruct (String.eqb name k); [reflexivity | exact IH].
+Qed.
+
 Lemma stored_out_val (o : out) (st : pydict) (name : string) :
   assoc "aberration_coefs" st = Some (out_val o) -> stored_coef st name = getd o name.
 Proof.
-  intros H. unfold stored_coef, getd, out_val in *. rewrite H.
-  induction o as [| [k q] t IH]; simpl; [reflexivity |].
-  destruct (String.eqb name k); [reflexivity | exact IH].
+  intros H. unfold stored_coef. rewrite H. unfold out_val. apply assoc_out_val.
 Qed.
 
 (* history independence: every coefficient read from the object after an accepted assignment is the
